@@ -31,6 +31,13 @@ def history_check(prop, tier, seed, shapes, monitors, modules, profiles, p_inval
         extra = gen.refs_scenarios(shapes, L) + [s for s in gen.ptr_scenarios(shapes, L) if s.tag != "ptr-read"] + \
                 [s for s in gen.iter_scenarios(shapes, min(L, 3)) if s.tag == "itermut"]
         suites.append(run_suite(prop, extra, profiles, monitors, "refs-ptr", compare_model=False))
+    if prop == "C08":
+        # the other ways an element is moved in or out must not run the struct's destructor either: pointer writes / reads,
+        # RefMut::replace, writes through views and mutable iterators, conversions of references
+        L = min(z["L"], 3)
+        extra = gen.refs_scenarios(shapes, L) + [s for s in gen.ptr_scenarios(shapes, L) if s.tag != "ptr-read"] + \
+                [s for s in gen.iter_scenarios(shapes, min(L, 3)) if s.tag == "itermut"]
+        suites.append(run_suite(prop, extra, profiles, monitors, "refs-ptr", compare_model=False))
     if prop == "C02":
         suites.append(run_suite(prop, gen.slicemut_invalid(shapes, min(z["L"], 4), seed), profiles, monitors, "slicemut", compare_model=False))
     def widen():
@@ -92,7 +99,9 @@ def check_C12(tier, seed):
     for p in ("debug", "release"): build_harness(p)
     proof = prove("C12", ["Soa.Props.C12"])
     scs = gen.cap_scenarios(gen.CAP_SHAPES, z["nrand"], z["nops"], seed)
-    suites = [run_suite("C12", scs, ["debug", "release"], [mon_c12], "capacity", compare_model=MODEL_C12)]
+    suites = [run_suite("C12", scs, ["debug", "release"], [mon_c12], "capacity", compare_model=MODEL_C12),
+              # the capacity API and the growing operations dispatched through the SoAVec trait
+              run_suite("C12", [gen.to_trait(s) for s in scs[::3]], ["debug", "release"], [mon_c12], "trait-capacity", compare_model=MODEL_C12)]
     def widen():
         yield run_suite("C12", gen.cap_scenarios(gen.ALL_SHAPES, 3000, 60, seed + 1), ["debug", "release"], [mon_c12], "widen", compare_model=False)
     return finish("C12", tier, seed, t0, "proof", proof, suites, [mon_c12], widen=widen)
